@@ -343,5 +343,352 @@ impl BPETokenizer {
     }
 //@end
 }
+// ---------------------------------------------------------------- de_tokenize prelude
+#[verifier::external_type_specification]
+#[verifier::external_body]
+pub struct ExFromUtf8Error(std::string::FromUtf8Error);
+impl From<std::string::FromUtf8Error> for AnyhowError {
+    #[verifier::external_body]
+    fn from(e: std::string::FromUtf8Error) -> AnyhowError { AnyhowError }
+}
+/// well-formed UTF-8
+pub uninterp spec fn is_utf8(b: Seq<u8>) -> bool;
+pub assume_specification[ String::from_utf8 ](v: Vec<u8>) -> (r: Result<String, std::string::FromUtf8Error>)
+    ensures r.is_ok() <==> is_utf8(v@), r.is_ok() ==> string_bytes(r.unwrap()) == v@;
+/// Vec<u8>::extend(&[u8]) / extend(&Vec<u8>)
+#[verifier::external_body]
+fn vt_extend_slice(v: &mut Vec<u8>, s: &[u8])
+    ensures final(v)@ == old(v)@ + s@,
+{ v.extend(s) }
+
+impl BPETokenizer {
+    /// bytes spelled by an id sequence: regular ids spell their table entry, special ids their spelling when kept
+    pub open spec fn dec(&self, ids: Seq<u32>, keep: bool) -> Seq<u8>
+        decreases ids.len()
+    {
+        if ids.len() == 0 { Seq::empty() } else {
+            self.dec(ids.drop_last(), keep) + (
+                if ids.last() < self.table().len() { self.table()[ids.last() as int]@ }
+                else if keep && self.special().rev().contains_key(ids.last()) { string_bytes(self.special().rev()[ids.last()]) }
+                else { Seq::empty() })
+        }
+    }
+//@unit src/tokenization.rs fn de_tokenize impl=^impl\sTokenize\sfor\sBPETokenizer$
+//@rule R4
+//@rule R6_extend_ref
+//@rule R6_extend_as_bytes
+    fn de_tokenize(
+        &self,
+        token_ids: &[u32],
+        ignore_special_tokens: bool,
+    ) -> (res: VtResult<String>)
+        requires self.table().len() <= u32::MAX,
+        ensures
+            // the decoded string spells exactly the table entries of the ids (special spellings when kept)
+            res.is_ok() ==> string_bytes(res.unwrap()) == self.dec(token_ids@, !ignore_special_tokens),
+            // an unknown special id is an error, never a panic, when special tokens are kept
+            (!ignore_special_tokens && exists|k: int| 0 <= k < token_ids.len() && token_ids[k] >= self.table().len() && !self.special().rev().contains_key(#[trigger] token_ids[k]))
+                ==> res.is_err(),
+            // total on valid input
+            (ignore_special_tokens || forall|k: int| 0 <= k < token_ids.len() && token_ids[k] >= self.table().len() ==> self.special().rev().contains_key(#[trigger] token_ids[k]))
+                && is_utf8(self.dec(token_ids@, !ignore_special_tokens)) ==> res.is_ok(),
+    {
+        let mut bytes = Vec::new();
+        let num_merge_ops = self.state.1.len() as u32;
+        let ghost mut done: int = 0;
+        proof { assert(token_ids@.subrange(0, 0) =~= Seq::<u32>::empty()); }
+        for token_id in it: token_ids
+            invariant
+                done == it.index@, 0 <= done <= token_ids.len(), num_merge_ops == self.table().len(), self.table().len() <= u32::MAX,
+                bytes@ == self.dec(token_ids@.subrange(0, done), !ignore_special_tokens),
+                !ignore_special_tokens ==> forall|k: int| 0 <= k < done && token_ids[k] >= self.table().len() ==> self.special().rev().contains_key(#[trigger] token_ids[k]),
+        {
+            proof {
+                assert(*token_id == token_ids[done]);
+                assert(token_ids@.subrange(0, done + 1).drop_last() =~= token_ids@.subrange(0, done));
+                assert(token_ids@.subrange(0, done + 1).last() == token_ids[done]);
+            }
+            if *token_id < num_merge_ops {
+                vt_extend_slice(&mut bytes, &self.state.1[*token_id as usize]);
+            } else if !ignore_special_tokens {
+                vt_extend_slice(&mut bytes, self.special_vocab
+                        .id_to_token(token_id)
+                        .ok_or_else(|| vt_anyhow())?
+                        .as_bytes());
+            }
+            proof {
+                assert(bytes@ =~= self.dec(token_ids@.subrange(0, done + 1), !ignore_special_tokens));
+                done = done + 1;
+            }
+        }
+        proof { assert(token_ids@.subrange(0, token_ids.len() as int) =~= token_ids@); }
+        Ok(String::from_utf8(bytes)?)
+    }
+//@end
+}
+/// C04: decoding a single regular id yields exactly that token's bytes
+proof fn lemma_dec_single(t: &BPETokenizer, id: u32, keep: bool)
+    requires id < t.table().len(),
+    ensures t.dec(seq![id], keep) == t.table()[id as int]@,
+{
+    assert(seq![id].drop_last() =~= Seq::<u32>::empty());
+    assert(t.dec(seq![id].drop_last(), keep) =~= Seq::<u8>::empty());
+    assert(t.dec(seq![id], keep) =~= t.table()[id as int]@);
+}
+
+// ================================================================ C02: BPE tokenization is lossless
+//@unit src/tokenization.rs enum TokenInput
+enum TokenInput<'a> {
+    Regular(&'a str),
+    Special(&'a str),
+}
+//@end
+pub enum TokenizationInfo { Empty }          // stand-in: BPE tokenization carries no extra information
+//@unit src/tokenization.rs struct Tokenization
+//@rule derive_drop
+pub struct Tokenization {
+    pub token_ids: Vec<u32>,
+    pub info: TokenizationInfo,
+}
+//@end
+impl Tokenization {
+//@unit src/tokenization.rs fn new impl=^impl\sTokenization$
+    pub fn new(token_ids: Vec<u32>, info: TokenizationInfo) -> (r: Self)
+        ensures r.token_ids == token_ids, r.info == info,
+    {
+        Tokenization { token_ids, info }
+    }
+//@end
+}
+pub enum Part { Regular(Seq<char>), Special(Seq<char>) }
+spec fn part_of(t: TokenInput) -> Part {
+    match t { TokenInput::Regular(s) => Part::Regular(s@), TokenInput::Special(s) => Part::Special(s@) }
+}
+spec fn parts_of(v: Seq<TokenInput>) -> Seq<Part> { v.map(|k: int, t: TokenInput| part_of(t)) }
+/// `\s` of the word pattern, per character; trim_end = the text without its trailing whitespace
+pub uninterp spec fn c_ws(c: char) -> bool;
+pub open spec fn trim_end(s: Seq<char>) -> Seq<char>
+    decreases s.len()
+{
+    if s.len() > 0 && c_ws(s.last()) { trim_end(s.drop_last()) } else { s }
+}
+/// Vec<u32>::extend(Vec<u32>)
+#[verifier::external_body]
+fn vt_extend_vec(v: &mut Vec<u32>, w: Vec<u32>)
+    ensures final(v)@ == old(v)@ + w@,
+{ v.extend(w) }
+
+/// the ids merge_bytes produces for a text, as a function of the tokenizer and the text
+pub uninterp spec fn mb_ids(t: BPETokenizer, s: Seq<char>) -> Seq<u32>;
+
+impl BPETokenizer {
+    pub closed spec fn prefix(&self) -> Seq<u32> { self.prefix_token_ids@ }
+    pub closed spec fn suffix(&self) -> Seq<u32> { self.suffix_token_ids@ }
+    pub open spec fn special_key(&self, spelling: Seq<char>) -> String {
+        choose|key: String| key@ == spelling && #[trigger] self.special().fwd().contains_key(key)
+    }
+    pub open spec fn special_id(&self, spelling: Seq<char>) -> Option<u32> {
+        if exists|key: String| key@ == spelling && #[trigger] self.special().fwd().contains_key(key) {
+            Some(self.special().fwd()[self.special_key(spelling)])
+        } else { None }
+    }
+    /// assumed here, VERIFIED in c01_byte.rs (same function): the parts of split_input
+    pub open spec fn split_ok(&self, s: Seq<char>, ignore: bool, p: Seq<Part>) -> bool {
+        &&& forall|k: int| 0 <= k < p.len() ==> (match #[trigger] p[k] { Part::Special(x) => self.special_id(x).is_some(), Part::Regular(_) => true })
+        &&& (ignore ==> p == seq![Part::Regular(s)])
+    }
+    #[verifier::external_body]
+    fn split_input<'a>(&self, s: &'a str, ignore_special_tokens: bool) -> (r: Vec<TokenInput<'a>>)
+        ensures self.split_ok(s@, ignore_special_tokens, parts_of(r@)),
+    { unimplemented!() }
+    /// assumed here, VERIFIED in c01_byte.rs
+    #[verifier::external_body]
+    fn add_prefix_and_suffix(&self, token_ids: Vec<u32>) -> (r: Vec<u32>)
+        ensures r@ == self.prefix() + token_ids@ + self.suffix(),
+    { unimplemented!() }
+
+    /// ASSUMED CONTRACT of BPETokenizer::merge_bytes -- the function is out of the verifier's reach (BinaryHeap of
+    /// 6-tuples, regex match iterator, nested find/map closures; DESIGN 7).  A BOUNDED check of the real function stands
+    /// in for it (bounded stand-in of C02): every id is a regular id and the ids spell the text without its trailing
+    /// whitespace.
+    #[verifier::external_body]
+    fn merge_bytes(&self, s: &str) -> (r: Vec<u32>)
+        ensures
+            r@ == mb_ids(*self, s@),
+            forall|k: int| 0 <= k < r.len() ==> (#[trigger] r[k]) < self.table().len(),
+            self.dec(r@, false) == chars_utf8(trim_end(s@)),
+    { unimplemented!() }
+
+    pub open spec fn ids_of(&self, p: Seq<Part>) -> Seq<u32>
+        decreases p.len()
+    {
+        if p.len() == 0 { Seq::empty() } else {
+            self.ids_of(p.drop_last()) + (match p.last() {
+                Part::Regular(s) => mb_ids(*self, s),
+                Part::Special(s) => seq![self.special_id(s).unwrap()],
+            })
+        }
+    }
+    /// every id of a part sequence is a vocabulary id
+    pub open spec fn valid_ids(&self, ids: Seq<u32>) -> bool { forall|k: int| 0 <= k < ids.len() ==> (#[trigger] ids[k]) < self.spec_vocab_size() }
+
+//@unit src/tokenization.rs fn tokenize impl=^impl\sTokenize\sfor\sBPETokenizer$
+//@rule R4
+//@rule R6_extend_call
+    fn tokenize(&self, s: &str, ignore_special_tokens: bool) -> (res: VtResult<Tokenization>)
+        requires self.wf(), obeys_key_model::<String>(),
+        ensures
+            // prefix ids, then per part the merged ids of the text / the single special id, then suffix ids
+            res.is_ok() ==> exists|p: Seq<Part>| #[trigger] self.split_ok(s@, ignore_special_tokens, p)
+                && res.unwrap().token_ids@ == self.prefix() + self.ids_of(p) + self.suffix() && self.valid_ids(self.ids_of(p)),
+            // without special-token parsing: never an error, the merged ids of the whole text
+            ignore_special_tokens ==> res.is_ok() && res.unwrap().token_ids@ == self.prefix() + mb_ids(*self, s@) + self.suffix(),
+    {
+        let inputs = self.split_input(s, ignore_special_tokens);
+        let mut token_ids = vec![];
+        let ghost parts = parts_of(inputs@);
+        let ghost mut done: int = 0;
+        proof { assert(parts.subrange(0, 0) =~= Seq::<Part>::empty()); }
+        for input in it: inputs
+            invariant
+                obeys_key_model::<String>(), self.wf(),
+                parts == parts_of(it.seq()), self.split_ok(s@, ignore_special_tokens, parts),
+                done == it.index@, 0 <= done <= parts.len(),
+                token_ids@ == self.ids_of(parts.subrange(0, done)), self.valid_ids(token_ids@),
+        {
+            proof {
+                assert(part_of(input) == parts[done]);
+                assert(parts.subrange(0, done + 1).drop_last() =~= parts.subrange(0, done));
+                assert(parts.subrange(0, done + 1).last() == parts[done]);
+            }
+            match input {
+                TokenInput::Regular(s) => {
+                    let ghost t0 = token_ids@;
+                    vt_extend_vec(&mut token_ids, self.merge_bytes(s));
+                    proof {
+                        assert(token_ids@ =~= self.ids_of(parts.subrange(0, done)) + mb_ids(*self, s@));
+                        assert forall|k: int| 0 <= k < token_ids.len() implies (#[trigger] token_ids[k]) < self.spec_vocab_size() by {
+                            if k >= t0.len() { assert(token_ids[k] == mb_ids(*self, s@)[k - t0.len()]); }
+                        }
+                    }
+                }
+                TokenInput::Special(token) => {
+                    proof {
+                        axiom_borrow_string_str(self.special_vocab.fwd(), token);
+                        if ignore_special_tokens { assert(parts[done] == Part::Regular(s@)); }
+                    }
+                    token_ids.push(
+                        self.special_vocab
+                            .token_to_id(token)
+                            .ok_or_else(|| vt_anyhow())?,
+                    );
+                    proof {
+                        let token_id = token_ids[token_ids.len() - 1];
+                        let key = choose|key: String| key@ == token@ && #[trigger] self.special().fwd().contains_key(key) && self.special().fwd()[key] == token_id;
+                        let key2 = self.special_key(token@);
+                        axiom_string_ext(key, key2);
+                        assert(self.special_id(token@) == Some(token_id));
+                        assert(token_ids@ =~= self.ids_of(parts.subrange(0, done)) + seq![token_id]);
+                        assert(self.special().rev().contains_key(token_id));
+                    }
+                }
+            }
+            proof { done = done + 1; }
+        }
+        proof {
+            assert(parts.subrange(0, parts.len() as int) =~= parts);
+            if ignore_special_tokens {
+                let p = seq![Part::Regular(s@)];
+                assert(p.drop_last() =~= Seq::<Part>::empty());
+                assert(self.ids_of(p.drop_last()) =~= Seq::<u32>::empty());
+                assert(p.last() == Part::Regular(s@));
+                assert(self.ids_of(p) =~= mb_ids(*self, s@));
+            }
+        }
+        Ok(Tokenization::new(
+            self.add_prefix_and_suffix(token_ids),
+            TokenizationInfo::Empty,
+        ))
+    }
+//@end
+
+    // ---- lemmas over dec
+    pub proof fn lemma_dec_append(&self, a: Seq<u32>, b: Seq<u32>, keep: bool)
+        ensures self.dec(a + b, keep) == self.dec(a, keep) + self.dec(b, keep),
+        decreases b.len()
+    {
+        if b.len() == 0 {
+            assert(a + b =~= a);
+            assert(self.dec(b, keep) =~= Seq::<u8>::empty());
+            assert(self.dec(a, keep) + self.dec(b, keep) =~= self.dec(a, keep));
+        } else {
+            assert((a + b).drop_last() =~= a + b.drop_last());
+            assert((a + b).last() == b.last());
+            self.lemma_dec_append(a, b.drop_last(), keep);
+            let x = self.dec(a + b, keep);
+            assert(x =~= self.dec(a, keep) + self.dec(b, keep));
+        }
+    }
+    /// special ids spell nothing when special tokens are ignored
+    pub proof fn lemma_dec_skip(&self, ids: Seq<u32>)
+        requires forall|k: int| 0 <= k < ids.len() ==> (#[trigger] ids[k]) >= self.table().len(),
+        ensures self.dec(ids, false) == Seq::<u8>::empty(),
+        decreases ids.len()
+    {
+        if ids.len() > 0 {
+            assert(ids.last() == ids[ids.len() - 1]);
+            assert forall|k: int| 0 <= k < ids.drop_last().len() implies (#[trigger] ids.drop_last()[k]) >= self.table().len() by { assert(ids.drop_last()[k] == ids[k]); }
+            self.lemma_dec_skip(ids.drop_last());
+            assert(self.dec(ids, false) =~= Seq::<u8>::empty());
+        }
+    }
+    /// ASSUMED (established by new_base_tokenizer, explored by the bounded stand-in of C04): prefix and suffix ids are
+    /// special ids
+    pub open spec fn fix_wf(&self) -> bool {
+        &&& forall|k: int| 0 <= k < self.prefix().len() ==> (#[trigger] self.prefix()[k]) >= self.table().len()
+        &&& forall|k: int| 0 <= k < self.suffix().len() ==> (#[trigger] self.suffix()[k]) >= self.table().len()
+    }
+    /// C02: decoding the ids of tokenize(s, ignore) with special tokens ignored gives the text without its trailing
+    /// whitespace -- exactly s when s has none -- as well-formed UTF-8 of a string; every id is a vocabulary id
+    pub proof fn theorem_lossless(&self, s: Seq<char>, ids: Seq<u32>)
+        requires
+            self.wf(), self.fix_wf(),
+            ids == self.prefix() + mb_ids(*self, s) + self.suffix(),
+            self.dec(mb_ids(*self, s), false) == chars_utf8(trim_end(s)),      // the assumed contract of merge_bytes
+        ensures
+            self.dec(ids, false) == chars_utf8(trim_end(s)),
+            (s.len() == 0 || !c_ws(s.last())) ==> self.dec(ids, false) == chars_utf8(s),
+    {
+        self.lemma_dec_append(self.prefix() + mb_ids(*self, s), self.suffix(), false);
+        self.lemma_dec_append(self.prefix(), mb_ids(*self, s), false);
+        self.lemma_dec_skip(self.prefix());
+        self.lemma_dec_skip(self.suffix());
+        assert(self.dec(ids, false) =~= chars_utf8(trim_end(s)));
+    }
+}
+/// the decoded text is a prefix of the input that differs from it only by trailing whitespace
+proof fn lemma_trim_end_prefix(s: Seq<char>)
+    ensures
+        trim_end(s).len() <= s.len(), trim_end(s) == s.subrange(0, trim_end(s).len() as int),
+        forall|k: int| trim_end(s).len() <= k < s.len() ==> c_ws(#[trigger] s[k]),
+    decreases s.len()
+{
+    if s.len() > 0 && c_ws(s.last()) {
+        let d = s.drop_last();
+        lemma_trim_end_prefix(d);
+        let t = trim_end(d);
+        assert(trim_end(s) == t);
+        assert(t.len() <= d.len());
+        assert(d.subrange(0, t.len() as int) =~= s.subrange(0, t.len() as int));
+        assert(t =~= s.subrange(0, t.len() as int));
+        assert forall|k: int| t.len() <= k < s.len() implies c_ws(#[trigger] s[k]) by {
+            if k < d.len() { assert(d[k] == s[k]); assert(c_ws(d[k])); } else { assert(s[k] == s.last()); }
+        }
+    } else {
+        assert(trim_end(s) == s);
+        assert(s =~= s.subrange(0, s.len() as int));
+    }
+}
+
 } // verus!
 fn main() {}
